@@ -53,7 +53,12 @@ type Gen struct {
 }
 
 func newGen(seed uint64, dir string) *Gen {
-	g := &Gen{Rand: &Rand{s: seed*0x9e3779b97f4a7c15 + 0x1234567}}
+	// scramble the seed so that consecutive seeds give unrelated streams (the state increment is the
+	// golden-ratio constant, so a linear seed mapping would merely shift the stream by one draw)
+	z := (seed + 0x1234567) * 0xD6E8FEB86659FD93
+	z = (z ^ (z >> 32)) * 0xD6E8FEB86659FD93
+	z ^= z >> 29
+	g := &Gen{Rand: &Rand{s: z}}
 	g.st.Seed = seed
 	g.st.PerOp = map[string]int{}
 	g.st.Tags = map[string]int{}
